@@ -11,12 +11,13 @@ LEVEL = "exploration"
 SHARDS = {"quick": 8, "thorough": 16}
 TIMEOUT = {"quick": 900, "thorough": 3000}
 MIN_EVALUATIONS = {"quick": 4000, "thorough": 4000}  # fewer oracle evaluations than this means the workload collapsed: inconclusive
-RULE = ("request kinds {generic connected / UCMM / Unconnected Send, single read, single write, bit write (read-modify-write), 3-fragment read "
+RULE = ("request kinds {generic connected / UCMM / Unconnected Send - untyped and with a data type the reply is decoded with -, single read, single write, bit write (read-modify-write), 3-fragment read "
         "and write with the fault on each fragment position, SLC/PCCC read and write, multi-service read/write with every per-service status vector of length <= 4 over "
         "{0,4,5,6,0xFF}, register session, list identity, symbol-list page, template attribute and template read during upload} x general "
         "status 0..255 x extended-status size {0,1,2 words} (table values + random) -> truthy exactly for status 0 (6 only for continuing "
         "services), otherwise falsy with non-empty error text naming the status (table text or hex code, extended text when the pair is in "
-        "the table); header-only encapsulation errors {1,2,3,0x64,0x65,0x69}; every truncation length of each kind's valid reply; seeded random "
+        "the table), error replies with and without data after the status words (1..40 bytes); header-only encapsulation errors "
+        "{1,2,3,0x64,0x65,0x69} and encapsulation status {1,4,0x66,0x100,0x10000,0x80000000,0xFFFFFFFF} on replies that keep their body; every truncation length of each kind's valid reply; seeded random "
         "byte corruptions; multi-service replies whose service count / offset table do not match the replies that follow: public calls may raise only library exceptions and a reply too short for its status words is never a success. "
         "distinct = (request kind, fault class, status | truncation length class) evaluated")
 ASSUMPTIONS = [
